@@ -83,4 +83,20 @@ PROPS = {
             {"name": "sweep", "run": "TestSweep", "kind": "plain", "shards": {Q: 4, T: 16}, "env": {"VERIF_SWEEP_LEN": {Q: 3, T: 4}}},
         ],
     },
+    "C11": {
+        "pkg": "c11",
+        "rule": ("rapid draws a keyed list function (quick: 12 types, thorough: all), populates a local server feature and a remote "
+                 "feature, retains DataCopy results of both and the payloads of data-change events together with their JSON text, and "
+                 "applies 1..5 further updates of every filter shape from every origin (local UpdateData / SetData, remote write incl. "
+                 "rejected ones, reply, notify, FeatureRemote.UpdateData(persist=false)); after every step each retained value must still "
+                 "encode to its recorded text, and after a failed or non-persisting update DataCopy of both stores must be unchanged "
+                 "(nil == empty). Use-case data of NodeManagement with use-case operations as later updates. Non-trivial: a filtered "
+                 "update hits a non-empty store while snapshots are watched. Distinct by (function, sequence of origin/shape)."),
+        "assumptions": ["a snapshot 'changes' iff its canonical JSON changes (values contain no relative-only time periods)",
+                        "'no data' (nil) and an empty value are not distinguished for the unchanged-store clause"],
+        "runs": [
+            {"name": "snapshots", "run": "TestSnapshots", "kind": "rapid", "checks": {Q: 6000, T: 320000}, "shards": {Q: 4, T: 16}},
+            {"name": "usecase", "run": "TestUseCaseSnapshots", "kind": "rapid", "checks": {Q: 4000, T: 100000}, "shards": {Q: 2, T: 8}},
+        ],
+    },
 }
